@@ -190,10 +190,10 @@ def run(scn):
         pre = {'on': False}          # history runs before the observed one: the body returns, the extractor yields one user key
         ext = (lambda *a, **k: {'zz_previous_run': 1} if pre['on'] else sc['metadata_extractor'](*a, **k)) if cfg.get('metadata_extractor') else None
 
-        def execute(self, p):
+        def execute(*a_, **k_):
             if pre['on']:
                 return 0
-            return body(self, p)
+            return body(*a_, **k_)
         Service.execute = tr.operation(metadata_extractor=ext)(execute)
         if params is not None:
             tr._classes_recording_params[Service] = RecordingParameters(**params)
@@ -211,7 +211,11 @@ def run(scn):
                     pass
             pre['on'] = False; cas.events = []; cas.saved_meta = None
         try:
-            if unit == 'W_op':
+            if unit == 'W_op' and cfg.get('no_positional_args'):
+                # the decorated function called with no positional argument at all (e.g. through a reference to the plain function)
+                obs['called_without_arguments'] = True
+                call_and_observe(Service.__dict__['execute'])
+            elif unit == 'W_op':
                 call_and_observe(svc.execute, probe)
             else:
                 svc.execute(probe)
@@ -233,6 +237,7 @@ def run(scn):
                 inner['exit'] = 'raise'; inner['exception'] = ex
     obs['exit'] = inner.get('exit')
     obs['body_calls'] = len(body.calls); obs['body_in_interception'] = list(body.in_interception)
+    obs['body_got_no_arguments'] = bool(body.calls) and body.calls[0] == ((), {})
     obs['same_args'] = bool(body.calls) and len(body.calls[0][0]) == 2 and body.calls[0][0][1] is probe and body.calls[0][1] == {}
     obs['result_is_body_result'] = inner.get('exit') == 'ret' and bool(body.returned) and inner['result'] is body.returned[0]
     obs['result_repr'] = repr(inner.get('result'))
